@@ -28,7 +28,7 @@ def run_raw(cases):
 
 
 def check(tier, seed, corpus):
-    n = 400 if tier == "quick" else 12000
+    n = 400 if tier == "quick" else 36000
     cases = list(corpus) + genraw.generate(seed, n // 2, 0.7) + genraw.generate(seed + 1, n // 2, 0.45)
     cases, traces, M, V = run_raw(cases)
     verd = {}
